@@ -5,6 +5,7 @@ import (
 	"go/ast"
 	"go/token"
 	"go/types"
+	"os"
 	"strings"
 
 	"golang.org/x/tools/go/packages"
@@ -87,6 +88,9 @@ func checkC07(w *World, r *Report) {
 	r.Rule("R07.1", "every loop of the YANG lexer leaves when the look-ahead is end of input and consumes input otherwise", 4)
 	r.guard("R07.1", func() { c07LexerLoops(w, r) })
 
+	r.Rule("R07.11", "the word state makes progress: lexStmt un-reads a rune and hands over to lexString only for runes with which lexString's scan consumes at least one rune — otherwise the two states would alternate for ever without advancing (an empty item per round)", 1)
+	r.guard("R07.11", func() { c07WordProgress(w, r) })
+
 	r.Rule("R07.2", "nothing is left running: the lexer goroutine's channel is closed when its state machine ends, and the parser's error exit drains the channel before dropping the lexer", 3)
 	r.guard("R07.2", func() { c07Drain(w, r) })
 
@@ -155,102 +159,180 @@ func c07LexerLoops(w *World, r *Report) {
 	if v, ok := intConst(eofC.Val()); ok {
 		eofV = v
 	}
-	next := w.Method("parse", "lexer", "next")
-	peek := w.Method("parse", "lexer", "peek")
-	n := 0
+	next := w.SSAFunc(w.Method("parse", "lexer", "next"))
+	peek := w.SSAFunc(w.Method("parse", "lexer", "peek"))
+	// l.next() reads and consumes a rune, l.peek() reads the same rune without consuming it
+	runeOf := func(v ssa.Value) (*ssa.Call, bool) {
+		c, ok := v.(*ssa.Call)
+		if !ok {
+			return nil, false
+		}
+		switch c.Call.StaticCallee() {
+		case next:
+			return c, true
+		case peek:
+			return c, false
+		}
+		return nil, false
+	}
+	sp := w.SSAPkg("parse")
+	// call sites of the functions of the package, for loops whose test is handed in by the caller
+	sites := map[*ssa.Function][]*ssa.Call{}
+	for _, g := range allFuncs(sp) {
+		for _, b := range g.Blocks {
+			for _, in := range b.Instrs {
+				if c, ok := in.(*ssa.Call); ok && c.Call.StaticCallee() != nil {
+					sites[c.Call.StaticCallee()] = append(sites[c.Call.StaticCallee()], c)
+				}
+			}
+		}
+	}
 	for _, fd := range funcDecls(p) {
 		file := w.Fset.Position(fd.Pos()).Filename
 		if !strings.HasSuffix(file, "/lex.go") {
 			continue
 		}
-		ast.Inspect(fd.Body, func(nd ast.Node) bool {
-			fs, ok := nd.(*ast.ForStmt)
-			if !ok {
-				return true
+		name := funcDeclName(fd)
+		if name == "lexer.run" || name == "lexer.drain" {
+			continue // not a character loop: R07.2
+		}
+		obj, _ := p.TypesInfo.Defs[fd.Name].(*types.Func)
+		top := w.SSAFunc(obj)
+		if top == nil {
+			continue
+		}
+		fns := []*ssa.Function{top}
+		for i := 0; i < len(fns); i++ {
+			fns = append(fns, fns[i].AnonFuncs...)
+		}
+		for _, f := range fns {
+			report := func(c string, ll lexLoop) {
+				exits := ll.leavesAt(eofV)
+				r.Check(exits && ll.consumes, "R07.1", c, ll.pos, "goes round only for runes other than eof; consumes a rune each time",
+					fmt.Sprintf("at end of input the loop goes round again (exits=%v) or an iteration does not consume (consumes=%v): next() does not advance at eof, so the lexer goroutine spins forever and Parse never returns", exits, ll.consumes))
 			}
-			name := funcDeclName(fd)
-			if name == "lexer.run" || name == "lexer.drain" {
-				return true // not a character loop: R07.2
+			for i, ll := range runeLoops(w, f, nil, runeOf) {
+				c := fmt.Sprintf("%s loop", name)
+				if i > 0 {
+					c = fmt.Sprintf("%s loop #%d", name, i+1)
+				}
+				hasFnParam := false
+				for _, prm := range f.Params {
+					if _, isSig := prm.Type().Underlying().(*types.Signature); isSig {
+						hasFnParam = true
+					}
+				}
+				if (ll.consumes && ll.leavesAt(eofV)) || !hasFnParam || len(sites[f]) == 0 || f.Parent() != nil {
+					report(c, ll)
+					continue
+				}
+				// the test is a function the callers hand in: one obligation per caller
+				for _, site := range sites[f] {
+					lls := runeLoops(w, f, &symCtx{call: site}, runeOf)
+					if i < len(lls) {
+						report(c+" (as called from "+funcKey(site.Parent())+")", lls[i])
+					}
+				}
 			}
-			n++
-			c := fmt.Sprintf("%s loop", name)
-			if fs.Cond != nil {
-				// cond is [!]pred(l.peek()) or pred(l.next()) >= 0 …
-				neg := false
-				e := ast.Unparen(fs.Cond)
-				if u, ok := e.(*ast.UnaryExpr); ok && u.Op == token.NOT {
-					neg = true
-					e = ast.Unparen(u.X)
-				}
-				ce, isCall := e.(*ast.CallExpr)
-				okShape := false
-				exits := false
-				consumes := len(allCallsTo(p, fs.Body, next)) > 0
-				if isCall && len(ce.Args) == 1 {
-					if inner, ok := ce.Args[0].(*ast.CallExpr); ok && (calleeOf(p, inner) == peek || calleeOf(p, inner) == next) {
-						if calleeOf(p, inner) == next {
-							consumes = true
-						}
-						if pred := calleeOf(p, ce); pred != nil && w.InRepoObj(pred) {
-							okShape = true
-							set := NewPredEval(w, intDom{}).TrueSet(pred).(ISet)
-							atEOF := set.contains(eofV)
-							if neg {
-								atEOF = !atEOF
-							}
-							exits = !atEOF
-						}
-					}
-				}
-				if !okShape {
-					// `for strings.IndexRune(valid, l.next()) >= 0 {}`: IndexRune of an invalid rune is -1
-					if be, ok := e.(*ast.BinaryExpr); ok && be.Op == token.GEQ {
-						if c2, ok := ast.Unparen(be.X).(*ast.CallExpr); ok && calleeOf(p, c2) != nil && calleeOf(p, c2).FullName() == "strings.IndexRune" {
-							if inner, ok := c2.Args[1].(*ast.CallExpr); ok && calleeOf(p, inner) == next {
-								okShape, exits, consumes = true, true, true
-							}
-						}
-					}
-				}
-				if !okShape {
-					r.Fail("R07.1", c, fs.Pos(), "loop condition is not a character-class test on the look-ahead: shape not recognised")
-					return true
-				}
-				r.Check(exits && consumes, "R07.1", c, fs.Pos(), "condition is false at eof; body consumes a rune",
-					fmt.Sprintf("at end of input the loop condition stays true (exits=%v) or the body does not consume (consumes=%v): next() does not advance at eof, so the lexer goroutine spins forever and Parse never returns", exits, consumes))
-				return true
-			}
-			// for { … }: must read a rune and have an eof exit
-			reads := len(allCallsTo(p, fs.Body, next)) > 0
-			exits := false
-			ast.Inspect(fs.Body, func(x ast.Node) bool {
-				switch y := x.(type) {
-				case *ast.CaseClause:
-					for _, e := range y.List {
-						if v, ok := ConstInt(p, e); ok && v == eofV && len(returnsIn(y)) > 0 {
-							exits = true
-						}
-					}
-				case *ast.IfStmt:
-					if be, ok := ast.Unparen(y.Cond).(*ast.BinaryExpr); ok && be.Op == token.EQL {
-						if v, ok := ConstInt(p, be.Y); ok && v == eofV && len(y.Body.List) > 0 {
-							switch l := y.Body.List[len(y.Body.List)-1].(type) {
-							case *ast.BranchStmt:
-								if l.Tok == token.BREAK {
-									exits = true
-								}
-							case *ast.ReturnStmt:
-								exits = true
-							}
-						}
-					}
-				}
-				return true
-			})
-			r.Check(reads && exits, "R07.1", c, fs.Pos(), "reads a rune per iteration; eof leaves the loop", fmt.Sprintf("unconditional loop: reads=%v, leaves at eof=%v", reads, exits))
-			return true
-		})
+		}
 	}
+}
+
+// c07WordProgress (R07.11).  lexStmt reads a rune r, and in the arm that
+// hands over to lexString puts it back; lexString then looks at the same rune
+// through peek().  The runes that can reach that arm must all be runes for
+// which lexString (helpers it hands the scan to included) gets to a next()
+// call — whatever the other tests on the way say.
+func c07WordProgress(w *World, r *Report) {
+	stmt := w.SSAFunc(w.Func("parse", "lexStmt"))
+	word := w.SSAFunc(w.Func("parse", "lexString"))
+	next := w.SSAFunc(w.Method("parse", "lexer", "next"))
+	peek := w.SSAFunc(w.Method("parse", "lexer", "peek"))
+	if stmt == nil || word == nil {
+		panic(undecided{"parse.lexStmt / parse.lexString"})
+	}
+	sym := NewSym(w)
+	sym.Expand = true
+	// 1. the runes lexStmt hands to lexString
+	var handed ISet
+	nArms := 0
+	for _, b := range stmt.Blocks {
+		ret, ok := b.Instrs[len(b.Instrs)-1].(*ssa.Return)
+		if !ok || len(ret.Results) != 1 {
+			continue
+		}
+		rv := ret.Results[0]
+		if ct, ok := rv.(*ssa.ChangeType); ok {
+			rv = ct.X
+		}
+		if fn, ok := rv.(*ssa.Function); !ok || fn != word {
+			continue
+		}
+		nArms++
+		// the rune read in this iteration: the next() call that dominates the arm
+		var read *ssa.Call
+		for _, rb := range stmt.Blocks {
+			for _, in := range rb.Instrs {
+				if c, ok := in.(*ssa.Call); ok && c.Call.StaticCallee() == next && (rb == b || rb.Dominates(b)) {
+					read = c
+				}
+			}
+		}
+		if read == nil {
+			panic(undecided{"lexStmt: the rune read before handing over to lexString"})
+		}
+		from := stmt.Blocks[0]
+		if l, in := loopOf(stmt, b); in {
+			from = l.Header
+		}
+		vals, decided := pcValuesWhen(sym.PathCond(from, b, nil), sym.Key(read, nil))
+		if !decided {
+			panic(undecided{"lexStmt: the runes handed to lexString"})
+		}
+		handed = handed.union(vals)
+	}
+	if nArms == 0 {
+		panic(undecided{"lexStmt never hands over to lexString"})
+	}
+	// 2. the runes for which lexString consumes: reaches a next() call, in itself or a helper
+	var consume func(f *ssa.Function, ctx *symCtx, depth int) (*pcF, []string)
+	consume = func(f *ssa.Function, ctx *symCtx, depth int) (*pcF, []string) {
+		out := pcZ
+		var subj []string
+		for _, b := range f.Blocks {
+			for _, in := range b.Instrs {
+				c, ok := in.(*ssa.Call)
+				if !ok {
+					continue
+				}
+				g := c.Call.StaticCallee()
+				switch {
+				case g == next:
+					out = pcOrF(out, sym.PathCond(f.Blocks[0], b, ctx))
+				case g == peek:
+					subj = append(subj, sym.Key(c, ctx))
+				case g != nil && depth < 2 && g.Blocks != nil && g != f && strings.HasPrefix(pkgPathOf(g), modPath) && calleesDeep(g, 2)[next]:
+					sub, ss := consume(g, &symCtx{call: c, parent: ctx}, depth+1)
+					out = pcOrF(out, pcAndF(sym.PathCond(f.Blocks[0], b, ctx), sub))
+					subj = append(subj, ss...)
+				}
+			}
+		}
+		return out, subj
+	}
+	reaches, subjects := consume(word, nil, 0)
+	var sure ISet
+	for _, sk := range subjects {
+		if stuck, decided := pcValuesWhen(pcNotF(reaches), sk); decided {
+			sure = sure.union(stuck.complement())
+		}
+	}
+	missing := handed.minus(sure)
+	if os.Getenv("YV_DEBUG") != "" {
+		fmt.Println("DEBUG R07.11 reaches:", reaches.String(), "subjects:", subjects, "handed:", handed.String(), "sure:", sure.String())
+	}
+	r.Check(len(missing) == 0, "R07.11", "lexStmt → lexString makes progress", word.Pos(), "every rune handed over is consumed by the word scan",
+		"for the runes "+missing.String()+" lexStmt puts the rune back and enters lexString, which may stop at once without consuming it: the lexer emits empty items for ever and Parse never returns")
 }
 
 func c07Drain(w *World, r *Report) {
